@@ -2,7 +2,14 @@
 open Gen
 open Util
 
-let parse_op (s : string) : Peers.pop =
+(* K:<id>:<key>:<inner op>: an alias call whose key conversion performed <inner op>; the
+   registry lock is taken after the conversion, so the history linearises as inner; alias
+   (the harness reports one observation for each) *)
+let rec parse_ops (s : string) : Peers.pop list =
+  match split_on ':' s with
+  | "K" :: i :: k :: inner -> parse_ops (String.concat ":" inner) @ [Peers.PAlias (n_of_hex i, n_of_hex k)]
+  | _ -> [parse_op s]
+and parse_op (s : string) : Peers.pop =
   match split_on ':' s with
   | ["I"; i] -> Peers.PInsert (n_of_hex i)
   | ["X"; i] -> Peers.PRemove (n_of_hex i)
@@ -34,7 +41,7 @@ let parse_step (s : string) : Peers.pobs =
 let step _ cs os =
   let f = fields cs and o = fields os in
   let ids = nlist (get f "ids") and keys = nlist (get f "keys") in
-  let ops = let s = get f "ops" in if s = "-" then [] else Stdlib.List.map parse_op (split_on ';' s) in
+  let ops = let s = get f "ops" in if s = "-" then [] else Stdlib.List.concat (Stdlib.List.map parse_ops (split_on ';' s)) in
   let out = ref [] in
   let model = Peers.model_C18 ids keys ops in
   if not (Peers.ok_C18 ids keys ops model) then out := "BAD\tside=model\tclause=ok_C18(model)=false" :: !out;
